@@ -1071,8 +1071,10 @@ wrapped_interval<Number>::UDiv(const wrapped_interval<Number> &x) const {
     return wrapped_interval<Number>::top();
   } else {
     std::vector<wrapped_interval<Number>> ssplits, x_ssplits;
-    signed_split(ssplits);
-    x.signed_split(x_ssplits);
+    // unsigned division is monotone on intervals that do not wrap around
+    // the unsigned limit (2^w-1 -> 0)
+    unsigned_split(ssplits);
+    x.unsigned_split(x_ssplits);
     assert(!ssplits.empty());
     assert(!x_ssplits.empty());
     wrapped_interval<Number> res = wrapped_interval<Number>::bottom();
